@@ -51,6 +51,14 @@ func runC05(p *Prog, r *Report) {
 	checkFixedFlagSets(p, r)
 	checkVPNWiring(p, r)
 	checkFillerCtors(p, r)
+	// the raw option strings reach their parsers as written (no trimming / rewriting on the way)
+	checkFlagFieldsReadOnly(p, r, "C05.R3", func(fr FlagReg) bool {
+		switch fr.Name {
+		case "ttl", "ipproto", "ipflags", "iplen", "type", "code", "payload", "flags", "srcip", "srcmac":
+			return true
+		}
+		return false
+	})
 	// the source address handed to the fillers is a 4-byte address (C17.R1 re-evaluated): the ARP
 	// filler writes it verbatim into a frame that announces 4-byte protocol addresses
 	sub := NewReport("C05", r.Tier)
